@@ -462,7 +462,34 @@ func upsertLadder(c *Ctx, id string) {
 func registerLadder(c *Ctx, id string) {
 	fn := c.W.Method("couchbase", "cbMembership", "register")
 	c.need(fn != nil, id, "cbMembership.register")
-	ladder(c, id, "register-ladder", fn, "UpdateDocument", "CreateDocument")
+	ladder(c, id, "register-ladder", ladderHome(c.W, fn, "CreateDocument"), "UpdateDocument", "CreateDocument")
+}
+
+// ladderHome: the function the write ladder lives in: fn itself or the same-package helper (two levels) that holds the
+// create step.
+func ladderHome(w *World, fn *ssa.Function, createName string) *ssa.Function {
+	has := func(f *ssa.Function) bool {
+		found := false
+		allInstrs(f, func(in ssa.Instruction) {
+			if cc := callOf(in); cc != nil && cc.StaticCallee() != nil && cc.StaticCallee().Name() == createName {
+				found = true
+			}
+		})
+		return found
+	}
+	if has(fn) {
+		return fn
+	}
+	var cands []*ssa.Function
+	for g := range w.syncCallees(fn, 2, false) {
+		if g != fn && g.Pkg == fn.Pkg && has(g) {
+			cands = append(cands, g)
+		}
+	}
+	if len(cands) == 1 {
+		return cands[0]
+	}
+	return fn
 }
 
 func ladder(c *Ctx, id, key string, fn *ssa.Function, writeName, createName string) {
@@ -1663,7 +1690,9 @@ func seqnoMerge(c *Ctx, id string) {
 	}
 	// every node, every collection: the whole sampling function evaluated for 0..3 nodes × 1..2 collections ×
 	// collection awareness × the step that fails
-	seqnoFanOut(c, id, rootFn(site.Fn))
+	root := w.Method("couchbase", "client", "GetVBucketSeqNos")
+	c.need(root != nil, id, "client.GetVBucketSeqNos")
+	seqnoFanOut(c, id, root)
 }
 
 // structFieldAV reads field `name` of a struct value (or of the struct a pointer value points to) as the run left it.
@@ -2155,12 +2184,37 @@ func wrapperOutcomes(c *Ctx, id string) {
 		opLabel := fname(site.Call.Common().StaticCallee())
 		cbSig, _ := site.CbValue.Type().Underlying().(*types.Signature)
 		args := map[string]func(st *State) AV{}
+		bools := []string{"hasCollectionsSupport"}
+		choices := map[string]int{"operation": 4}
 		for _, p := range root.Params {
-			if mt, ok := p.Type().Underlying().(*types.Map); ok {
-				_ = mt
-				name := p.Name()
+			name := p.Name()
+			switch pt := p.Type().Underlying().(type) {
+			case *types.Map:
 				args[name] = func(st *State) AV {
 					return avMap{&mapObj{sym: name, keys: []AV{avOpaque{name + ".key0"}}, vals: []AV{avOpaque{name + ".val0"}}}}
+				}
+			case *types.Slice:
+				// a list the wrapper is handed: two symbolic elements
+				el := pt.Elem()
+				args[name] = func(st *State) AV {
+					return avSlice{cells: []*cell{{typ: el, sym: name + "[0]"}, {typ: el, sym: name + "[1]"}}}
+				}
+			case *types.Basic:
+				switch {
+				case pt.Kind() == types.Bool:
+					bools = append(bools, name)
+				case pt.Info()&types.IsInteger != 0:
+					// a position in such a list (the parameter is used as an index): every position of the two
+					isIndex := false
+					for _, r := range *p.Referrers() {
+						if ia, ok := r.(*ssa.IndexAddr); ok && ia.Index == ssa.Value(p) {
+							isIndex = true
+						}
+					}
+					if isIndex {
+						choices[name] = 2
+						args[name] = func(st *State) AV { return avInt{conc: int64(st.C(name))} }
+					}
 				}
 			}
 		}
@@ -2170,7 +2224,7 @@ func wrapperOutcomes(c *Ctx, id string) {
 			serverError
 			silent
 		)
-		h := &Harness{Fn: root, Choices: map[string]int{"operation": 4}, Bools: []string{"hasCollectionsSupport"}, Quiet: quietLog, MaxSteps: 20000, Concrete: true, NoInline: noInline, Args: args,
+		h := &Harness{Fn: root, Choices: choices, Bools: bools, Quiet: quietLog, MaxSteps: 20000, Concrete: true, NoInline: noInline, Args: args,
 			Input: func(st *State, sym string, t types.Type) AV {
 				// the collections inside a result the server sent have one (symbolic) element
 				if sl, ok := t.Underlying().(*types.Slice); ok && strings.HasPrefix(sym, "result") {
@@ -2234,6 +2288,9 @@ func wrapperOutcomes(c *Ctx, id string) {
 					return []AV{ptrResult(res, 0, "asyncOp")}, true
 				case strings.HasSuffix(name, ".HasCollectionsSupport"):
 					return []AV{avBool{st.B("hasCollectionsSupport")}}, true
+				case strings.HasSuffix(name, ".Load") && res != nil && res.Len() == 2:
+					// a shared result map a callback merges into: empty (what the merge does with an entry is another rule's)
+					return []AV{zeroOf(res.At(0).Type()), avBool{false}}, true
 				case units[name] != nil && res != nil:
 					var out []AV
 					for i := 0; i < res.Len(); i++ {
@@ -2397,12 +2454,22 @@ func consumerChain(c *Ctx, id string, start, newDcp *ssa.Function) {
 			ctors = append(ctors, fn)
 		}
 	}
-	c.need(simple != nil && ce != nil && len(ctors) >= 3, id, "NewSimpleConsumer / simplifiedConsumer.ConsumeEvent / the constructors")
+	c.need(simple != nil && ce != nil && len(ctors) >= 2, id, "NewSimpleConsumer / simplifiedConsumer.ConsumeEvent / the constructors")
+	// the field that keeps the listener: the function-typed field of the simple consumer (whatever it is called)
+	lisField := ""
+	if st, ok := ce.Signature.Recv().Type().(*types.Pointer).Elem().Underlying().(*types.Struct); ok {
+		for i := 0; i < st.NumFields(); i++ {
+			if _, isSig := st.Field(i).Type().Underlying().(*types.Signature); isSig {
+				lisField = st.Field(i).Name()
+			}
+		}
+	}
+	c.need(lisField != "", id, "the listener field of the simple consumer")
 	// the simple consumer calls the listener once with its own argument
 	c.see(ce)
 	n, okArg := 0, true
 	allInstrs(ce, func(in ssa.Instruction) {
-		if cc := callOf(in); cc != nil && strings.HasSuffix(w.Origin(cc.Value), "recv.listener") {
+		if cc := callOf(in); cc != nil && strings.HasSuffix(w.Origin(cc.Value), "recv."+lisField) {
 			n++
 			_, plain := in.(*ssa.Call)
 			if !plain || len(cc.Args) != 1 || len(ce.Params) != 2 || w.Origin(cc.Args[0]) != w.Origin(ce.Params[1]) || len(guardsOf(in.Block())) != 0 {
@@ -2416,7 +2483,7 @@ func consumerChain(c *Ctx, id string, start, newDcp *ssa.Function) {
 	kept := false
 	allInstrs(simple, func(in ssa.Instruction) {
 		if st, ok := in.(*ssa.Store); ok && len(simple.Params) == 1 && st.Val == ssa.Value(simple.Params[0]) {
-			if f := fieldOfAddr(st.Addr); f != nil && f.Name() == "listener" {
+			if f := fieldOfAddr(st.Addr); f != nil && f.Name() == lisField {
 				kept = true
 			}
 		}
